@@ -11,7 +11,9 @@ DESIGN_REF = "DESIGN.md §9 C12, §12.C12"
 COQ_TARGETS = ["Properties/C12", "Pins/C12"]
 THEOREMS = [("PdfV.Properties.C12", n) for n in
             ["C12_invisible", "C12_order_independent", "C12_get_is_denotation", "C12_cyclic_refuted",
-             "C12_a_refuted_before_fix", "C12_b_refuted_before_fix", "C12_split_table", "C12_codecs_table"]]
+             "C12_a_refuted_before_fix", "C12_b_refuted_before_fix", "C12_split_table", "C12_codecs_table",
+             "C12_typed_get_any_history", "C12_error_entries_irrelevant", "C12_value_entries_typed",
+             "C12_stream_entries_full", "C12_partial_decode", "C12_serving_cached_errors_refuted"]]
 ANCHORS = ["types.rs:ImageXObject::raw_image_data", "file.rs:StorageResolver"]
 MODES = ["cache_history"]
 TRUSTED_BASE = ["coqc 8.16.1 kernel (vm_compute for table lemmas and witnesses; no native_compute)",
@@ -22,8 +24,11 @@ ASSUMPTIONS = ["document abstraction: a typed load is an interaction tree `prog 
                "C12_invisible premise `acyclic`: eager nested loads follow a rank (no reference cycle among eagerly loaded objects); the cyclic case is refuted (C12-c)",
                "Storage::decode is a function of (reference, filter list): raw bytes + enc::decode per filter (Section functions raw/appf/imgc)",
                "SyncCache is used sequentially here (Vacant -> compute -> Computed); eviction by globalcache's cleaner is not triggered and not modelled"]
-RULE = ("files: Node documents (harness object types with nested typed loads, type-dependent failures, error-swallowing parents; acyclic and cyclic), "
-        "library documents (catalog, two pages, font, content stream, images and streams with filter chains such as [/ASCIIHexDecode /DCTDecode], "
+RULE = ("files: Node documents (harness object types with nested typed loads, type-dependent failures, error-swallowing parents; acyclic and cyclic; "
+        "split documents: for every error kind - missing object (free / beyond the table / NullRef), wrong type, parse error, EOF, MaxDepth, missing entry, "
+        "recursion, other - a reference that fails with it when loaded as one type (eagerly, or by the type's own check) and loads as another, with every "
+        "ordering of the typed loads and retried loads), "
+        "library documents (catalog, two pages, font, content stream, objects holding a dangling reference, images and streams with filter chains such as [/ASCIIHexDecode /DCTDecode], "
         "[/ASCII85Decode /FlateDecode]); call sequences: per object every ordering of up to 3 distinct call kinds (typed get as each type, raw resolve, "
         "stream data, raw image data, image data, page look-up), random sequences up to length 12; each under {both, object only, stream only, no} caches; "
         "expected answers computed by the python oracle from the file's construction (and, for library-typed values, from the uncached run); "
@@ -137,16 +142,30 @@ def orderings(kinds, upto=3):
 def node_scenarios(rng, tier):
     out = []
     n_docs = 6 if tier == "quick" else 40
-    for di in range(n_docs):
-        cyc = di % 3 == 2
-        nd = ring_nodedoc(rng, 2 + (di // 3) % 2) if cyc else rand_nodedoc(rng, rng.randint(3, 7))
-        data = D.build_file(nd.objects(), free=nd.free)
-        ids = sorted(nd.nodes) + sorted(nd.free)
-        tags = ["node", "cyclic" if not nd.acyclic() else "acyclic"]
+    n_split = 2 if tier == "quick" else 8
+    for di in range(-n_split, n_docs):
+        cyc = di % 3 == 2 and di >= 0
+        if di < 0:
+            # for every error kind a reference that fails with it as one type and loads as another (D.split_doc);
+            # every second one also with an object that follows a reference to itself ("Recursive reference")
+            nd = D.split_doc(rng, selfloop=di % 2 == 1)
+        else:
+            nd = ring_nodedoc(rng, 2 + (di // 3) % 2) if cyc else rand_nodedoc(rng, rng.randint(3, 7))
+        data = nd.build()
+        ids = nd.all_ids()
+        tags = ["node", "cyclic" if not nd.acyclic() else "acyclic"] + (["split"] if di < 0 else [])
         # per object: every ordering of the distinct typed gets (3 types) up to length 3
         for r in ids:
             for o in orderings([0, 1, 2]):
                 out.append(Scenario("node", b"s", data, [(0, ty, r) for ty in o], nodedoc=nd, tags=tags + ["exhaustive"]))
+            if di < 0 and nd.type_dependent(r):
+                # ... and retried loads: fail, fail again, succeed, fail again (and the other way round)
+                bad = [ty for ty in range(3) if nd.alone_get(ty, r)[0] == "e"]
+                good = [ty for ty in range(3) if nd.alone_get(ty, r)[0] == "o"]
+                for b in bad:
+                    for g in good:
+                        for seq in ([b, b, g, b, g], [g, b, g, g, b]):
+                            out.append(Scenario("node", b"s", data, [(0, ty, r) for ty in seq], nodedoc=nd, tags=tags + ["retry"]))
         if cyc:
             # every ordering of up to 3 distinct objects (one type): the order-dependence of C12-c
             for o in orderings(sorted(nd.nodes), 3):
@@ -190,6 +209,13 @@ def library_doc(rng, chains, compressed=False, all_images=False):
         n += 1
     for r, s in streams.items():
         objs[r] = s.value()
+    # objects that hold a dangling reference (object 990 is not in the cross-reference table): loaded as the type
+    # that follows it (a page its /Parent, a font its /FontDescriptor, a catalog its /Pages) the load fails with a
+    # missing-object error, loaded as a dictionary or raw it succeeds; and an object of the wrong type for all of them
+    objs[n] = {"Type": Name("Page"), "Parent": Ref(990), "MediaBox": [0, 0, 10, 10], "Resources": {}}
+    objs[n + 1] = {"Type": Name("Font"), "Subtype": Name("TrueType"), "BaseFont": Name("Arial"), "FontDescriptor": Ref(990)}
+    objs[n + 2] = {"Type": Name("Catalog"), "Pages": Ref(990)}
+    objs[n + 3] = [Ref(n), Ref(990), 7]
     if compressed:
         entries = {}
         for num, v in objs.items():
@@ -224,8 +250,9 @@ def library_scenarios(rng, tier):
                 seqs = list(orderings(STREAM_KINDS, 2)) + [rng.sample(STREAM_KINDS, 3) for _ in range(40)]
             for o in seqs:
                 out.append(Scenario("lib", opts, data, [(k, ty, r) for (k, ty) in o], streams=streams, tags=tags + ["exhaustive"], model=model))
-        for r in [1, 2, 3, 4, 5, 7]:
-            for o in orderings(OBJ_KINDS, 2):
+        dangling = [i for i in ids if i > max(streams)]
+        for r in [1, 2, 3, 4, 5, 7] + dangling:
+            for o in orderings(OBJ_KINDS, 3 if r in dangling else 2):
                 out.append(Scenario("lib", opts, data, [(k, ty, r) for (k, ty) in o], streams=streams, tags=tags + ["exhaustive"], model=model))
         for _ in range(60 if tier == "quick" else 400):
             calls = []
@@ -300,7 +327,8 @@ def nontrivial(c):
 
 def classify(case, impl, model):
     # C12-c: eager reference cycles — an entry computed while the guard stack was not empty is served later
-    if "cyclic" in case.tags and "oc" in case.tags:
+    # (an object that follows a reference to itself - the split documents - is answered as alone: not this class)
+    if "cyclic" in case.tags and "oc" in case.tags and "split" not in case.tags:
         return "C12-c"
     return None
 
